@@ -139,6 +139,54 @@ def seededFlags (rows : Rows) (argv : List String) : Option String :=
     let p ← parseSDec (← optOr o "addgapsCmd" "prop-seq")
     if p < 0 || p > 1 || lp < 0 || lp > 1 then pure ("rc=0 out=" ++ fasta rows) else
     pure ("rc=0 out=" ++ fasta (runCmd (addGaps (fracOf p n) (fracOf lp L) L rows) s 0))
+  | "shuffle" :: "seqs" :: fl => do
+    -- cmd/seqs.go: per alignment `ShuffleSequences()`
+    let o ← parseOpts [] [] ["--seed"] fl
+    let s ← seedOf o
+    if n == 0 then none else
+    pure ("rc=0 out=" ++ fasta (runCmd (shuffleSequences rows) s 0))
+  | "sample" :: "seqs" :: fl => do
+    -- cmd/sampleseq.go: per alignment `--nb-samples` times `Sample(--nb-seq)`, every sample written in turn; a size
+    -- outside [1, number of rows] is an error (at the first sample: without samples nothing is drawn, nothing fails)
+    let o ← parseOpts [("-n", "--nb-seq"), ("-s", "--nb-samples"), ("-o", "--output")] [] ["--seed", "--nb-seq", "--nb-samples", "--output"] fl
+    let s ← seedOf o
+    let k ← parseInt? (← optOr o "sampleseqCmd" "nb-seq")
+    let m ← parseInt? (← optOr o "sampleseqCmd" "nb-samples")
+    let out ← optOr o "sampleseqCmd" "output"
+    if n == 0 || !(out == "stdout" || out == "-") then none else
+    if m ≤ 0 then pure "rc=0 out=" else
+    if k < 1 || k > n then pure "rc=1 out=" else
+    pure ("rc=0 out=" ++ String.join ((runCmd (replM m.toNat (sampleRows k.toNat rows)) s 0).map fasta))
+  | "sample" :: "sites" :: fl => do
+    -- cmd/samplesites.go, one sample on stdout (`--nsamples` above 1 writes files: `seededFiles`); `--consecutive`
+    -- is a switch that takes its value after `=`
+    let fl' := fl.map fun a => if a == "--consecutive=false" then "--scattered" else if a == "--consecutive=true" then "--consecutive" else a
+    let o ← parseOpts [("-l", "--length"), ("-n", "--nsamples"), ("-o", "--output")] ["--consecutive", "--scattered"]
+      ["--seed", "--length", "--nsamples", "--output", "--consecutive", "--scattered"] fl'
+    let s ← seedOf o
+    let len ← parseInt? (← optOr o "samplesitesCmd" "length")
+    let m ← parseInt? (← optOr o "samplesitesCmd" "nsamples")
+    let out ← optOr o "samplesitesCmd" "output"
+    -- the last of `--consecutive` / `--consecutive=false` decides, else the registered default
+    let cons ← match (o.reverse.find? fun x => x.1 == "--consecutive" || x.1 == "--scattered") with
+      | some x => some (x.1 == "--consecutive")
+      | none => (CliDefaults.effective "samplesitesCmd" "consecutive").map (· == "true")
+    if n == 0 || !(out == "stdout" || out == "-") then none else
+    if m ≤ 0 then pure "rc=0 out=" else
+    if m != 1 then none else
+    if len > L || len ≤ 0 then pure "rc=1 out=" else
+    pure ("rc=0 out=" ++ fasta (runCmd (randSubAlign len.toNat L cons rows) s 0))
+  | "random" :: fl => do
+    -- cmd/random.go: `RandomAlignment(nucleotides | amino acids, --length, --nb-seqs)` (no input is read)
+    let o ← parseOpts [("-l", "--length"), ("-n", "--nb-seqs"), ("-a", "--amino-acids"), ("-o", "--out-align")] ["--amino-acids"]
+      ["--seed", "--length", "--nb-seqs", "--amino-acids", "--out-align"] fl
+    let s ← seedOf o
+    let len ← (← optOr o "randomCmd" "length").toNat?
+    let nb ← (← optOr o "randomCmd" "nb-seqs").toNat?
+    let aa := (← optOr o "randomCmd" "amino-acids") == "true"
+    let out ← optOr o "randomCmd" "out-align"
+    if !(out == "stdout" || out == "-") || len == 0 || nb == 0 || nb > 9999 then none else
+    pure ("rc=0 out=" ++ fasta (runCmd (randomAlignment (if aa then Gen.stdaminoacid else Gen.stdnucleotides) len nb 0) s 0))
   | _ => none
 
 /-- `phylip.WriteAlignment(al, false, false, false)`, newline as `|` -/
@@ -207,6 +255,26 @@ def seededFiles (rows : Rows) (files : List (String × String)) (argv : List Str
     let named := (List.range outs.length).zip outs |>.map fun (i, b) => (prefix_ ++ toString i ++ ".fa", fasta b)
     let named := named.mergeSort fun a b => decide (a.1 ≤ b.1)
     pure ("rc=0 out= files=" ++ ";;".intercalate (named.map fun x => x.1 ++ "=" ++ x.2))
+  | "sample" :: "sites" :: fl => do
+    -- cmd/samplesites.go with `--nsamples` above 1 (FASTA input): sample `i` goes to `<output>_<i>.<extension>`, and
+    -- the extension already carries its dot (`alignExtension()` = `.fa`): `<output>_<i>..fa`; nothing on stdout; the
+    -- samples are drawn one after the other from the one stream
+    let fl' := fl.map fun a => if a == "--consecutive=false" then "--scattered" else if a == "--consecutive=true" then "--consecutive" else a
+    let o ← parseOpts [("-l", "--length"), ("-n", "--nsamples"), ("-o", "--output")] ["--consecutive", "--scattered"]
+      ["--seed", "--length", "--nsamples", "--output", "--consecutive", "--scattered"] fl'
+    let s ← seedOf o
+    let len ← parseInt? (← optOr o "samplesitesCmd" "length")
+    let m ← parseInt? (← optOr o "samplesitesCmd" "nsamples")
+    let out ← optOr o "samplesitesCmd" "output"
+    let cons ← match (o.reverse.find? fun x => x.1 == "--consecutive" || x.1 == "--scattered") with
+      | some x => some (x.1 == "--consecutive")
+      | none => (CliDefaults.effective "samplesitesCmd" "consecutive").map (· == "true")
+    if rows.isEmpty || m ≤ 1 || m > 10 then none else
+    if !(out.all fun c => c.isAlphanum || c == '_') || out.isEmpty then none else
+    if len > L || len ≤ 0 then pure bad else
+    let outs := runCmd (replM m.toNat (randSubAlign len.toNat L cons rows)) s 0
+    let named := (List.range outs.length).zip outs |>.map fun (i, b) => (out ++ "_" ++ toString i ++ "." ++ ".fa", fasta b)
+    pure ("rc=0 out= files=" ++ ";;".intercalate (named.map fun x => x.1 ++ "=" ++ x.2))
   | _ => none
 
 def sameVerdict (impl what : String) : Ans :=
@@ -224,17 +292,13 @@ def handle : Handler := fun op args impl =>
   | "detmulti", _ => some (sameVerdict impl "multi-alignment-input-differs-from-alignments-one-by-one")
   | "cli_seeded", stdin :: argv => do
     let rows := parseFasta (stdin.splitOn "|")
-    let n := rows.length
     let L : Nat := Spec.width rows
     let out : Option String :=
       match argv with
       | ["shuffle", "seqs", "--seed", s] => do
         let s ← parseInt? s
         pure ("rc=0 out=" ++ fasta (runCmd (shuffleSequences rows) s 0))
-      | ["sample", "seqs", "-n", k, "-s", m, "--seed", s] => do
-        let s ← parseInt? s; let k ← parseInt? k; let m ← m.toNat?
-        if k < 1 || k > n then pure "rc=1 out=" else
-        pure ("rc=0 out=" ++ String.join ((runCmd (replM m (sampleRows k.toNat rows)) s 0).map fasta))
+      -- (`sample seqs -n k -s m --seed s` is decided by `seededFlags`, which also knows that no sample means no error)
       | ["sample", "sites", "-l", len, "--seed", s] => do
         let s ← parseInt? s; let len ← parseInt? len
         if len > L || len ≤ 0 then pure "rc=1 out=" else
